@@ -303,6 +303,30 @@ fn p2_programs(tier: Tier) -> Vec<Program> {
         ["{m}{s}", "{s}", "fixed name", "{m:>4}|{s:<3}|"].iter().map(|s| s.to_string()).collect(),
         &mut out,
     );
+    // tuple variants of DIFFERENT arity in one enum (the arguments of one arm must not depend on its siblings), one disabled
+    {
+        let mut spec = EnumSpec::base(0);
+        for (j, (kind, l, dis)) in [
+            (Kind::Tuple(vec![FieldTy::U8]), "{0}", false),
+            (Kind::Tuple(vec![FieldTy::U8, FieldTy::I32, FieldTy::SStr]), "{0}-{1}-{2} wide", false),
+            (Kind::Tuple(vec![FieldTy::I32, FieldTy::SStr]), "{1}/{0}", false),
+            (Kind::Tuple(vec![FieldTy::U8]), "<{0:>4}>", false),
+            (Kind::Tuple(vec![FieldTy::U8, FieldTy::I32, FieldTy::SStr, FieldTy::U8]), "{3}{2}{1}{0}", true),
+            (Kind::Named(vec![NamedField { name: "id".into(), ty: FieldTy::U8, default_with: false }, NamedField { name: "idx".into(), ty: FieldTy::I32, default_with: false }]), "{idx:02}", false),
+            (Kind::Named(vec![NamedField { name: "w".into(), ty: FieldTy::U8, default_with: false }, NamedField { name: "width".into(), ty: FieldTy::I32, default_with: false }]), "{width:>4}", false),
+        ]
+        .into_iter()
+        .enumerate()
+        {
+            let mut v = VariantSpec::unit(&format!("V{}", j));
+            v.kind = kind;
+            v.to_string = Some(l.to_string());
+            v.disabled = dis;
+            spec.variants.push(v);
+        }
+        let source = render_p2(&spec);
+        out.push(Program { idx: 0, label: "P2 mixed: tuple variants of arity 1 / 3 / 2 / 1 / 4(disabled), named fields whose names are prefixes of one another".into(), k: 2, spec, aux: json!({"p2": true}), source });
+    }
     // a `default` variant with a placeholder to_string is formatted like any other interpolated variant
     for (label, kind, l) in [
         ("default tuple(String)", Kind::Tuple(vec![FieldTy::Str]), "other: {0}"),
@@ -408,6 +432,9 @@ fn render_p2(spec: &EnumSpec) -> String {
     o.push_str(&render_enum(spec, &["Debug", "strum::Display"]));
     o.push_str("pub fn run(ctx: &mut vf_core::Ctx) {\n    let mut obs: Vec<(usize, usize, Result<(String, Vec<(String, String)>), String>, String)> = Vec::new();\n");
     for (i, v) in spec.variants.iter().enumerate() {
+        if v.disabled {
+            continue;
+        }
         let lit_s = lit(v.to_string.as_ref().unwrap());
         for j in 0..2 {
             match &v.kind {
